@@ -2,7 +2,7 @@
 import common
 import gfi_run
 
-RULE = "random typed programs over probe distributions (fn/vmap/scan/cond nesting depth<=2 quick, <=3 thorough; <=4 call sites per body; lanes/steps 2-3); per program: simulate, assess on two random complete choice maps (one under perturbed args), simulate again; every op compared with the Lean model (exact rationals) and with an independent reference semantics; non-trivial = program with >=2 sites, distinct by program text"
+RULE = "structural corpus first (gfi_corpus.py: 9 hand-built nestings - Cond over nested @gen at shared / disjoint addresses, Cond of Cond, Scan fed by an upstream choice, Cond in a Scan step, Vmap of nested fn, Vmap of Vmap, Scan of repeat, Cond of Scan, Vmap lanes with a Cond - each with a fixed op script incl. argument changes that flip the check); then random typed programs over probe distributions (fn/vmap/scan/cond nesting depth<=2 quick, <=3 thorough; <=4 call sites per body; lanes/steps 2-3); per program: simulate, assess on two random complete choice maps (one under perturbed args), simulate again; every op compared with the Lean model (exact rationals) and with an independent reference semantics; non-trivial = program with >=2 sites, distinct by program text"
 
 SHARDS_QUICK, PER_SHARD_QUICK = 13, 5
 SHARDS_THOROUGH, PER_SHARD_THOROUGH = 14, 18
@@ -10,7 +10,7 @@ SHARDS_THOROUGH, PER_SHARD_THOROUGH = 14, 18
 
 def run(ctx, audit):
     ns, per = (SHARDS_THOROUGH, PER_SHARD_THOROUGH) if ctx.thorough else (SHARDS_QUICK, PER_SHARD_QUICK)
-    common.run_sharded(ctx, "gfi_props", "shard_c01", [(i, per) for i in range(ns)])
+    common.run_sharded(ctx, "gfi_props", "shard_c01", [(i, per, ns) for i in range(ns)])
     extra(ctx)
     return {"rule": RULE}
 
